@@ -966,23 +966,27 @@ def probe_known(ctx, k):
 
 
 def replay(ctx, payload):
-    """re-evaluate a recorded Spec violation: True when it no longer fails"""
+    """Re-evaluate a recorded Spec violation by regenerating the streams of the recorded (seed, tier):
+    False = the recorded input still fails, True = it was re-evaluated and passes now,
+    None = the input could not be regenerated (different sampling regime)."""
+    import hashlib
+    import json
+    from common import show
     v = payload.get('violation')
-    if not v:
+    if not isinstance(v, dict) or 'input' not in v:
         return None
-    i = v.get('input', {})
-    of = ctx.of
-    F = of.FermionOperator
-    fn = i.get('fn')
-    from common import dec_term
-    if fn in ('trivially_double_commutes_dual_basis', 'trivially_commutes_dual_basis'):
-        ts = [dec_term('fermion', i[k]) for k in ('a', 'b', 'c') if k in i]
-        ops = [F(t) for t in ts]
-        if len(ops) == 3:
-            r = of.trivially_double_commutes_dual_basis(*ops)
-            z = of.normal_ordered(of.commutator(ops[0], of.normal_ordered(of.commutator(ops[1], ops[2]))))
-        else:
-            r = of.trivially_commutes_dual_basis(*ops)
-            z = of.normal_ordered(of.commutator(*ops))
-        return not (r and z.terms)
+    ctx.seed = payload.get('seed', ctx.seed)
+    ctx.tier = payload.get('tier', ctx.tier)
+    want = json.dumps(v['input'], default=str)
+    key = hashlib.sha1(show(v['input'], 10 ** 7).encode()).hexdigest()[:16]
+    seen = False
+    for drift in (ctx.drift, not ctx.drift):
+        ctx.drift = drift
+        for s in run(ctx):
+            for w in s.violations:
+                if json.dumps(json.loads(json.dumps(w['input'], default=str))) == want:
+                    return False
+            seen = seen or key in s.distinct
+        if seen:
+            return True
     return None
